@@ -2,7 +2,7 @@ SPECIFICATION Spec
 CONSTANTS MaxConn = 2
  MaxBin = 1
  Flavours = {"nat", "natreal"}
- MainIdx = {1, 2, 3, 6}
+ MainIdx = {1, 2, 3, 6, 11}
  SideIdx = {4}
  RMainIdx = {1}
  RSideIdx = {3}
